@@ -74,8 +74,8 @@ def build(case):
                                                 runtime=et(s["runtime"], s.get("runtime_u"))))
         prof = WorkProfile(name="prof%02d" % ti, execution_strategies=ExecutionStrategies(strategies=strategies))
         gname = "g%d" % t["graph"]
-        task = Task(name="t%02d" % ti, task_graph=gname, job=Job(name="job%02d" % ti, profile=prof), deadline=et(t["deadline"], t.get("deadline_u")),
-                    profile=prof, timestamp=0, release_time=et(t["release"], t.get("release_u")), _logger=lg)
+        task = Task(name="t%02d" % t.get("name_of", ti), task_graph=gname, job=Job(name="job%02d" % ti, profile=prof), deadline=et(t["deadline"], t.get("deadline_u")),
+                    profile=prof, timestamp=t.get("ts", 0), release_time=et(t["release"], t.get("release_u")), _logger=lg)
         task.release(et(t["release"], t.get("release_u")))
         tasks.append(task)
         graphs.setdefault(gname, {})[task] = []
